@@ -101,6 +101,7 @@ def run(ctx):
         rexe = ctx.replay_exe()
     except build.BuildError as e:
         ctx.tie_broken.append('replay driver: ' + str(e)[:300]); rexe = None
+    build.warm(cfgs, [('pool', ['h_pool.cpp'], {}), ('stack', ['h_stack.cpp'], {}), ('llleak', ['h_llleak.cpp'], {})])
     ex_pool = {c: build.build_harness('pool', c, ['h_pool.cpp']) for c in cfgs}
     ex_stack = {c: build.build_harness('stack', c, ['h_stack.cpp']) for c in cfgs}
     cases = []
